@@ -10,6 +10,9 @@ def gen_array_case(rng, cls, maxops):
     nv = [100 + rng.below(7)]
 
     def val():
+        # mostly fresh distinct values; sometimes the special ones (0 is the type's default / -0.0 for doubles)
+        if rng.chance(1, 8):
+            return rng.choice([0, 0, -1, 1])
         nv[0] += 1 + rng.below(3)
         return nv[0]
 
@@ -113,7 +116,8 @@ class C14(Spec):
         for i in range(n):
             cls = rng.below(2)
             ops = gen_array_case(rng, cls, rng.choice([5, 10, 20, 30]))
-            out.append((f"elem={'tracked' if cls else 'int'}", [[cls, 1]] + ops))
+            dbl = 0 if cls else rng.below(2)
+            out.append((f"elem={'tracked' if cls else ('double' if dbl else 'int')}", [[cls, 1, dbl]] + ops))
         return out
 
     def nontrivial(self, lines):
@@ -124,7 +128,8 @@ class C14(Spec):
                  "6": "move_ctor", "7": "move_assign", "8": "swap", "9": "resize", "10": "resize_fill", "11": "write",
                  "12": "destroy", "13": "read", "14": "front_back"}
         tags = {"op:" + names.get(l.split()[0], "?") for l in lines[1:]}
-        tags.add("elem:tracked" if lines[0].split()[0] == "1" else "elem:int")
+        hd = lines[0].split()
+        tags.add("elem:tracked" if hd[0] == "1" else ("elem:double" if len(hd) > 2 and hd[2] == "1" else "elem:int"))
         if any(l.split()[0] in ("0", "1", "9", "10") and l.split()[2] == "0" for l in lines[1:]):
             tags.add("length0")
         return sorted(tags)
